@@ -1086,7 +1086,7 @@ func (ndb *nodeDB) traversePrefix(prefix []byte, fn func(k, v []byte) error) err
 		}
 	}
 
-	return nil
+	return itr.Error()
 }
 
 // Get the iterator for a given prefix.
